@@ -107,6 +107,11 @@ CANARIES = [
     ('sse_radix4', 'S', r'let twiddle_offset = num_vector_columns \* \(ROW_COUNT - 1\);', 'let twiddle_offset = num_vector_columns * ROW_COUNT;', 'perform_fft_immut'),
     ('partial_factors', 'S', r'power3: self\.power3 - divisor\.power3,', 'power3: self.power3 - divisor.power2,', 'divide_by'),
     ('prime_roots', 'S', r'divisor \+= 2;', 'divisor += 4;', 'distinct_prime_factors'),
+    ('prime_roots', 'S', r'result = result \* base % modulo;', 'result = result * result % modulo;', 'modular_exponent'),
+    ('prime_roots', 'S', r'base = \(base \* base\) % modulo;', 'base = (base * base * base) % modulo;', 'modular_exponent'),
+    ('prime_roots', 'S', r'if modular_exponent\(potential_root, \*exp, prime\) == 1 \{', 'if modular_exponent(potential_root, *exp, prime) == 0 {', 'primitive_root'),
+    ('prime_roots', 'S', r'test_exponents\.push\(\(prime - 1\) / factor\);', 'test_exponents.push(prime / factor);', 'primitive_root'),
+    ('prime_roots', 'S', r'return Some\(potential_root\);', 'return Some(potential_root + 1);', 'primitive_root'),
     ('array_utils', 'S', r'let output_index = y \+ \*rev \* height;', 'let output_index = y + *rev * width;', 'bitreversed_transpose'),
     ('planner_dispatch', 'S', r'self\.plan_fft\(len, FftDirection::Inverse\)', 'self.plan_fft(len, FftDirection::Forward)', 'plan_fft_inverse'),
     ('good_thomas', 'S', r'input_output_map\.push\(\(x \* height \+ y \* width\) % len\)', 'input_output_map.push(x * height + y * width)', 'new'),
